@@ -182,7 +182,7 @@ def run_one(ctx, n, fam, pattern, layout, classical, sample=False):
 
 def evaluate(ctx, deep):
     rng = ctx.rng
-    nmax = 9 if deep else 7
+    nmax = 8 if deep else 7
     all_pat_max = 6 if deep else 5
     for n in range(1, nmax + 1):
         N = 2 ** n
